@@ -22,8 +22,10 @@ structure between variables / dictionaries survive; NumPy view relations and syn
 Klong functions are re-parsed by B from the text of the statement that defined them under the module that was current
 then, system functions found in leaked `.f` cells are replaced by B's own function of the same name.
 """
+import contextlib
 import copy
 import re
+import types
 from collections import deque
 
 from klongpy import KlongInterpreter
@@ -33,8 +35,10 @@ from klongpy.interpreter import KGModule
 from .. import bfs, runner
 from ..values import cn, show
 
-# The statement alphabet of DESIGN.md (C04), in that order, plus three texts (last line) that make the compiled-
-# expression cache observable: a compiled `a*2` applied to a string is Python's repetition, not Klong's Times.
+# The statement alphabet of DESIGN.md (C04), in that order, plus four texts (last line).  `a::"xy"`, `a*2`, `b::a*2`
+# make the compiled-expression caches observable (compiled `a*2` applied to a string is Python's repetition, not
+# Klong's Times): `a*2` goes through `_compiled_cache`, the operand of `b::a*2` through the per-node `_compiled` memo.
+# `d,[5 6]` updates a dictionary through the variable its literal was assigned to (literal sharing in 3 statements).
 ALPHABET = [
     'a::[1 2 3]', 'a::[1.0 2.0 3.0]',
     'b::a', 'b::1_a', 'b::2#a', 'b::|a', 'b::a@[0 1]', 'b::a,[]', 'b::[],a', 'b::0:^a',
@@ -46,19 +50,20 @@ ALPHABET = [
     '.module(:q)', '.module(0)',
     'd:::{[1 2]}', 'e::d', 'e,[3 4]',
     '{+/x*x}:>[1.0 2.0]',
-    'a::"xy"', 'a*2',
+    'a::"xy"', 'a*2', 'b::a*2', 'd,[5 6]',
 ]
 
 # depth-4 alphabet of the thorough tier when the full one does not fit (see run()): one representative per mechanism
 REDUCED = [
-    'a::[1 2 3]', 'a::[1.0 2.0 3.0]', 'b::a', 'b::1_a', 'b::a,[]', 'a::a:=9,0', 'b::b:=9,0',
+    'a::[1 2 3]', 'a::[1.0 2.0 3.0]', 'a::"xy"', 'b::a', 'b::1_a', 'b::a,[]', 'a::a:=9,0', 'b::b:=9,0',
     'm::[[1 2] [3 4]]', 'r::*m', 'm::m:-7,[0 0]', 'r::r:=5,0', 'f::{x:=0,0}', 'f(a)', 'g::{[1 2 3]}', 'c::g()',
-    'c::c:=8,1', '+/a', 'a+1', '.module(:q)', '.module(0)', 'd:::{[1 2]}', 'e::d', 'e,[3 4]', '{+/x*x}:>[1.0 2.0]',
-    'a::"xy"', 'a*2',
+    'c::c:=8,1', '+/a', 'a*2', 'b::a*2', '.module(:q)', '.module(0)', 'd:::{[1 2]}', 'e::d', 'e,[3 4]',
+    '{+/x*x}:>[1.0 2.0]',
 ]
+FULL_DEPTH_4 = False        # thorough tier: full alphabet at length 4 (False: REDUCED at length 4, full up to 3)
 
 ASSIGN = re.compile(r'^([a-z]+)::')
-DICT_INPLACE = {'e,[3 4]': 'e'}            # statement -> variable whose dictionary is updated in situ (documented)
+DICT_INPLACE = {'e,[3 4]': 'e', 'd,[5 6]': 'd'}           # statement -> variable whose dictionary is updated in situ (documented)
 CASE_CPU_S = 10
 
 SAMPLES = [
@@ -122,12 +127,9 @@ class Side:
     def execute(self, text):
         module = self.kl._module
         try:
-            with runner.watchdog(CASE_CPU_S):
-                r = self.kl(text)
-                self.note_fns(text, module)
-                out = ('ok', self.cval(r))
-        except runner.CaseTimeout:
-            out = ('timeout',)
+            r = self.kl(text)
+            self.note_fns(text, module)
+            out = ('ok', self.cval(r))
         except RecursionError:
             out = ('exc', 'RecursionError')
         except Exception as e:          # noqa: BLE001 - every failure class is an observation
@@ -244,8 +246,8 @@ def classify(what, hist, text, observed):
     """Root-cause label by inspection of the failures seen on the pinned tree (triage aid only)."""
     if text.startswith('.module(') and 'parser-module' in observed:
         return 'module-switch-from-parse-cache'
-    if text == 'a*2' and 'xyxy' in observed:
-        return 'compiled-python-semantics-on-string'
+    if text == 'b::a*2' and ('xyxy' in observed or what.startswith('raise(b')):
+        return 'stale-compiled-memo-on-syntax-node'
     return None
 
 
@@ -288,15 +290,16 @@ def check_last(hist, text):
         snippet = ('from klongpy import KlongInterpreter\nk = KlongInterpreter()\n'
                    + ''.join('try:\n    print(%r, "->", k(%r))\nexcept Exception as e:\n    print(%r, "-> exc", type(e).__name__)\n'
                              % (p, p, p) for p in prog)
+                   + 'print("parser module:", k._module)\n'
+                   + 'print([dict(fr) for fr in list(k._context._context)[:-2]])\n'
+                   + '# %s: observed %s\n' % (what, observed)
                    + '# a fresh interpreter holding the same variable values answers the last statement with: %s\n' % expected)
         viol.append(dict(key=' ; '.join(prog) + ' @' + what, observed=observed, expected=expected,
                          case={'history': history, 'op': text, 'what': what}, snippet=snippet,
                          group=classify(what, history, text, observed)))
 
     ok_a, ok_b = ra[0] == 'ok', rb[0] == 'ok'
-    if ra[0] == 'timeout' or rb[0] == 'timeout':
-        add('result', _show_out(ra), _show_out(rb) if rb[0] != 'timeout' else 'termination')
-    elif ok_a != ok_b or (ok_a and ra != rb):
+    if ok_a != ok_b or (ok_a and ra != rb):
         add('result', _show_out(ra), _show_out(rb))
     if post_a != post_b:
         da, db = _state_diff(post_a, post_b)
@@ -313,12 +316,57 @@ def check_last(hist, text):
     return viol, info
 
 
-def make_expand(alphabet, sample_set):
+@contextlib.contextmanager
+def fast_construction():
+    """Two interpreters are constructed per history and ~60% of `KlongInterpreter()` is `inspect.signature` over the
+    same 45 system functions.  The parameter names of a plain Python function are a function of its code object, so
+    they are memoised per code object while a run is in progress (construction only; nothing the property is about)."""
+    import klongpy.types as kt
+    orig = getattr(kt, 'safe_inspect', None)
+    if orig is None:
+        yield
+        return
+    cache = {}
+
+    def memo(fn, follow_wrapped=True):
+        if type(fn) is types.FunctionType and not hasattr(fn, '__wrapped__'):
+            r = cache.get(fn.__code__)
+            if r is None:
+                r = cache[fn.__code__] = orig(fn, follow_wrapped)
+            return r
+        return orig(fn, follow_wrapped)
+
+    kt.safe_inspect = memo
+    try:
+        yield
+    finally:
+        kt.safe_inspect = orig
+
+
+def make_expand(alphabet, sample_set, max_len, check_from=1):
     def expand(hist):
-        out = {'succ': [], 'transitions': 0, 'executions': 0, 'violations': [], 'raised': 0, 'warm': 0,
+        out = {'succ': [], 'transitions': 0, 'executions': 0, 'violations': [], 'raised': 0, 'warm': 0, 'pruned': 0,
                'outcomes': set(), 'poststates': set(), 'sampled': []}
+        if len(hist) + 1 < check_from:          # shorter histories over this alphabet were checked by an earlier phase
+            out['succ'] = [(text, 0) for text in alphabet]
+            return out
         for text in alphabet:
-            v, info = check_last(hist, text)
+            try:
+                with runner.watchdog(CASE_CPU_S):
+                    v, info = check_last(hist, text)
+            except runner.CaseTimeout:
+                prog = list(hist) + [text]
+                out['transitions'] += 1
+                out['violations'].append(dict(
+                    key=' ; '.join(prog) + ' @termination', observed='did not terminate', expected='termination',
+                    case={'history': list(hist), 'op': text, 'what': 'termination'}, group='non-termination',
+                    snippet='from klongpy import KlongInterpreter\nk = KlongInterpreter()\n'
+                            + ''.join('k(%r)\n' % p for p in prog)))
+                out['succ'].append((text, None))        # not extended: every extension would hang in the replay
+                out['pruned'] += 1
+                continue
+            if len(hist) + 1 < max_len:             # histories of maximal length are checked, not extended
+                out['succ'].append((text, 0))
             out['transitions'] += 1
             out['executions'] += len(hist) + 2
             out['violations'].extend(v)
@@ -328,7 +376,6 @@ def make_expand(alphabet, sample_set):
             out['poststates'].add(hash(info['post']) & 0xffffffffffff)
             if hist + (text,) in sample_set:
                 out['sampled'].append(list(hist) + [text, '=> ' + _show_out(info['ra'])])
-            out['succ'].append((text, 0))
         return out
     return expand
 
@@ -336,8 +383,22 @@ def make_expand(alphabet, sample_set):
 def run(cfg):
     rep = runner.Report('C04', 'model_checking')
     sample_set = set(SAMPLES)
-    depth = cfg.pick(3, 4)
-    total = bfs.search(make_expand(ALPHABET, sample_set), cfg, depth, merge=False)
+    two_phase = (not cfg.quick) and not FULL_DEPTH_4
+    depth = 3 if (cfg.quick or two_phase) else 4
+    with fast_construction():
+        total = bfs.search(make_expand(ALPHABET, sample_set, depth), cfg, depth, merge=False)
+        t2 = bfs.search(make_expand(REDUCED, sample_set, 4, check_from=4), cfg, 4, merge=False) if two_phase else None
+    expected = sum(len(ALPHABET) ** n for n in range(1, depth + 1))
+    by_length = [len(ALPHABET) ** n for n in range(depth + 1)]
+    rule_tail = ''
+    if two_phase:
+        for k in ('layers', 'states', 'max_depth', 'unexpanded_frontier', 'capped'):
+            t2.pop(k, None)
+        runner.merge_counts(total, t2)
+        expected += len(REDUCED) ** 4
+        by_length.append(len(REDUCED) ** 4)
+        depth = 4
+        rule_tail = '; length 4 over the reduced alphabet of %d texts (`alphabet_length_4`)' % len(REDUCED)
     rep.extend_violations(total.get('violations', []))
     checked = total['transitions']
     rep.coverage = {
@@ -350,7 +411,8 @@ def run(cfg):
         'max_history_length': depth,
         'alphabet': list(ALPHABET),
         'alphabet_size': len(ALPHABET),
-        'histories_by_length': [len(ALPHABET) ** n for n in range(depth + 1)],
+        'alphabet_length_4': list(REDUCED) if two_phase else (list(ALPHABET) if depth == 4 else None),
+        'histories_by_length': by_length,
         'distinct_outcomes': len(total.get('outcomes', ())),
         'distinct_post_states': len(total.get('poststates', ())),
         'statements_that_raised': total.get('raised', 0),
@@ -358,9 +420,12 @@ def run(cfg):
         'rule': 'every sequence of length <= %d over the %d statement texts is executed on one interpreter (no merging '
                 'of histories: a state is a history); the last statement of every sequence is also executed by a fresh '
                 'interpreter loaded with a copy of the pre-state; results, post-states and the frame condition are '
-                'compared' % (depth, len(ALPHABET)),
+                'compared' % (3 if two_phase else depth, len(ALPHABET)) + rule_tail,
     }
-    if checked != sum(len(ALPHABET) ** n for n in range(1, depth + 1)):
+    pruned = total.get('pruned', 0)
+    rep.coverage['exhaustive'] = pruned == 0
+    rep.coverage['histories_not_extended_after_timeout'] = pruned
+    if not pruned and checked != expected:
         raise runner.HarnessError('enumeration incomplete: %d checked' % checked)
     rep.assumptions = [
         'the variable state is the stack of context frames (global, module, post-module and leaked argument frames) '
@@ -373,6 +438,7 @@ def run(cfg):
         'cells bound to the dictionary updated by `e,[3 4]` are exempt from the frame condition (documented in-place '
         'operation) but are compared with the fresh interpreter, which holds the same alias structure',
         'A and B live in one process: hidden state shared through module-level objects of klongpy would be invisible',
+        'while the search runs, klongpy.types.safe_inspect is memoised per code object (interpreter construction only)',
         'numeric-block promotion of the canonical form (DESIGN 2.4); exception classes are not compared',
     ]
     return rep
@@ -386,7 +452,18 @@ def selftest():
     assert all(x is not y for x, y in zip(fa, fb))
     assert b.kl('e') is b.kl('d') and b.kl('d') is not a.kl('d')
     assert b.kl('f') is not a.kl('f')
-    return True
+    # the snapshot sees an in-place write through an alias, the copy does not share storage with the original
+    a = build(('a::[1 2 3]', 'b::a'))
+    b = fresh_copy(a)
+    pre = a.snapshot()
+    a.kl('a')[0] = 9
+    diff = {k for k, v in _cells(a.snapshot()).items() if _cells(pre)[k] != v}
+    assert diff == {(0, 'a'), (0, 'b')}, diff
+    assert b.snapshot() == pre
+    # copy-before-write amend on an aliased literal: nothing to report
+    v, _ = check_last(('a::[1 2 3]', 'b::a'), 'a::a:=9,0')
+    assert v == [], v
+    return 'fresh copy faithful on a 7-statement history (module, function, aliased dictionary); snapshot sees aliased writes'
 
 
 def replay(cfg, path):
